@@ -33,4 +33,53 @@ theorem plane_sizes (frame : List Nat) (w h : Nat) (y u v : List Nat) (hd : deco
   simp only [Option.some.injEq, Prod.mk.injEq] at hd
   obtain ⟨rfl, rfl, rfl, rfl, rfl⟩ := hd
   refine ⟨rfl, rfl, crop_length _ _ _ _, crop_length _ _ _ _, crop_length _ _ _ _⟩
+
+/-! ### every macroblock is decoded once -/
+
+theorem mbStep_size (h : Vp8Header.Hdr) (tp : Array Nat) (mbw nparts mbx mby : Nat) (s s' : St)
+    (e : mbStep h tp mbw nparts mbx mby s = some s') : s'.mbs.size = s.mbs.size + 1 := by
+  unfold mbStep at e
+  split at e
+  · cases e
+  · simp only [] at e
+    split at e
+    · cases e
+    · simp only [Option.some.injEq] at e
+      subst e
+      simp
+
+theorem rowLoop_size (h : Vp8Header.Hdr) (tp : Array Nat) (mbw nparts mby : Nat) :
+    ∀ n mbx (s s' : St), rowLoop h tp mbw nparts mby n mbx s = some s' → s'.mbs.size = s.mbs.size + n := by
+  intro n
+  induction n with
+  | zero => intro mbx s s' e; simp only [rowLoop, Option.some.injEq] at e; subst e; rfl
+  | succ n ih =>
+    intro mbx s s' e
+    simp only [rowLoop] at e
+    split at e
+    · cases e
+    · rename_i s1 h1
+      have := ih _ _ _ e
+      have := mbStep_size h tp mbw nparts mbx mby s s1 h1
+      omega
+
+theorem frameLoop_size (h : Vp8Header.Hdr) (tp : Array Nat) (mbw nparts : Nat) :
+    ∀ n mby (s s' : St), frameLoop h tp mbw nparts n mby s = some s' → s'.mbs.size = s.mbs.size + n * mbw := by
+  intro n
+  induction n with
+  | zero => intro mby s s' e; simp only [frameLoop, Option.some.injEq] at e; subst e; simp
+  | succ n ih =>
+    intro mby s s' e
+    simp only [frameLoop] at e
+    split at e
+    · cases e
+    · rename_i s1 h1
+      have := ih _ _ _ e
+      have := rowLoop_size h tp mbw nparts mby mbw 0 _ s1 h1
+      simp only [] at this
+      rw [Nat.succ_mul]
+      simp at *
+      omega
+
+
 end Vp8FrameProof
